@@ -28,7 +28,7 @@ OUT_TYPES: Tuple[str, ...] = ("SELL", "GIFT", "DONATE", "FEE", "LOST", "STAKING"
 ALL_IN_TYPES: Tuple[str, ...] = ACQ_TYPES + EARN_TYPES
 METHODS: Tuple[str, ...] = ("fifo", "lifo", "hifo", "lofo")
 
-EXCHANGES: Tuple[str, ...] = ("Coinbase", "Coinbase_Pro", "BlockFi", "Ledger")
+EXCHANGES: Tuple[str, ...] = ("Coinbase", "Coinbase_Pro", "Block Fi", "L\u00e9dger")  # a name with a space (the documentation's own example is "Coinbase Pro"), a non-ASCII one
 HOLDERS: Tuple[str, ...] = ("Pro_Bob", "Bob")  # with the exchanges above two different accounts share the join "Coinbase_Pro_Bob" (RP2 sorts balances by "<exchange>_<holder>")
 ASSETS: Tuple[str, ...] = ("AAA", "BBB", "CCC")
 
@@ -360,6 +360,12 @@ def history(rng: random.Random, profile: Optional[Profile] = None, asset: str = 
             earn = ttype in EARN_TYPES
             amount = rand_amount(rng, p.amount_style, p.max_sig_digits)
             spot = rand_price(rng, p.price_style, p.max_sig_digits)
+            if lots and rng.random() < 0.1:
+                # a recurring order: the same amount as the previous acquisition, and now and then the same price as well
+                amount = lots[-1]
+                previous_in = next((r for r in reversed(rows) if r["t"] == "IN"), None)
+                if previous_in is not None and rng.random() < 0.4:
+                    spot = Decimal(previous_in["spot"])
             row: Dict[str, Any] = {
                 "t": "IN",
                 "ts": ts,
@@ -384,6 +390,8 @@ def history(rng: random.Random, profile: Optional[Profile] = None, asset: str = 
                     row["ffee"] = dstr(_limit_sig(q11(amount * spot / rng.choice((20, 100, 333))) + Decimal("0.01"), p.max_sig_digits))
                 elif p.allow_in_crypto_fee and rng.random() < 0.15:
                     row["cfee"] = "0"  # an explicit crypto fee of zero in the cell (as in the shipped test_data4.ods): no fee, no artificial fee row
+                elif p.allow_in_crypto_fee and rng.random() < 0.08:
+                    row["ffee"] = "0"  # an explicit fiat fee of zero
             if rng.random() < p.p_optional_fiat:
                 value = amount * spot
                 if rng.random() < p.p_inconsistent_fiat:
@@ -414,6 +422,8 @@ def history(rng: random.Random, profile: Optional[Profile] = None, asset: str = 
             ttype = rng.choice(list(p.out_types))
             spot = rand_price(rng, p.price_style, p.max_sig_digits)
             total = _portion(rng, avail, lots, p.max_sig_digits)
+            if ttype == "FEE" and rng.random() < 0.04:
+                spot = Decimal(0)  # a fee the export values at nothing: the one out-transaction type that needs no spot price
             if ttype == "FEE":
                 cout, cfee = Decimal(0), total
             else:
